@@ -154,6 +154,9 @@ int vt_clock_gettime(clockid_t id, struct timespec* ts) { (void)id; ts->tv_sec =
 /* horizon for programs that send on their own and sleep in between (preset "sleeps=<n>"): the script ends at the n-th sleep */
 static int g_sleep_budget = -1;
 static void end_of_script(void);
+unsigned vt_sleep(unsigned s);
+ssize_t vt_write(int fd, const void* buf, size_t n);
+ssize_t vt_sendto(int fd, const void* buf, size_t n, int flags, const struct sockaddr* a, socklen_t l);
 unsigned vt_sleep(unsigned s) { (void)s; if (g_sleep_budget >= 0 && --g_sleep_budget < 0) end_of_script(); return 0; }
 
 ssize_t vt_recv(int fd, void* buf, size_t n, int flags)
@@ -170,6 +173,21 @@ ssize_t vt_recv(int fd, void* buf, size_t n, int flags)
     return (ssize_t)c;
 }
 ssize_t vt_recvfrom(int fd, void* buf, size_t n, int flags, struct sockaddr* a, socklen_t* l) { (void)a; (void)l; return vt_recv(fd, buf, n, flags); }
+/* scatter/gather forms of the same calls (a program may be rewritten to use them) */
+ssize_t vt_recvmsg(int fd, struct msghdr* m, int flags)
+{
+    static uint8_t tmp[4096];
+    size_t cap = 0;
+    for (size_t i = 0; i < (size_t)m->msg_iovlen; i++) cap += m->msg_iov[i].iov_len;
+    ssize_t n = vt_recv(fd, tmp, cap < sizeof tmp ? cap : sizeof tmp, flags);
+    size_t off = 0;
+    for (size_t i = 0; i < (size_t)m->msg_iovlen && n > 0 && off < (size_t)n; i++) {
+        size_t c = m->msg_iov[i].iov_len < (size_t)n - off ? m->msg_iov[i].iov_len : (size_t)n - off;
+        memcpy(m->msg_iov[i].iov_base, tmp + off, c); off += c;
+    }
+    m->msg_flags = 0; m->msg_controllen = 0;
+    return n;
+}
 
 int vt_poll(struct pollfd* fds, nfds_t nfds, int timeout)
 {
@@ -227,6 +245,24 @@ ssize_t vt_sendto(int fd, const void* buf, size_t n, int flags, const struct soc
     elog("PKT "); elog_hex(buf, n); elog(";");
     return (ssize_t)n;
 }
+
+ssize_t vt_send(int fd, const void* buf, size_t n, int flags)
+{
+    if (fd == g_can_fd) return vt_write(fd, buf, n);
+    return vt_sendto(fd, buf, n, flags, NULL, 0);
+}
+ssize_t vt_sendmsg(int fd, const struct msghdr* m, int flags)
+{
+    static uint8_t tmp[8192]; size_t off = 0;
+    for (size_t i = 0; i < (size_t)m->msg_iovlen; i++) { size_t c = m->msg_iov[i].iov_len; if (off + c > sizeof tmp) c = sizeof tmp - off; memcpy(tmp + off, m->msg_iov[i].iov_base, c); off += c; }
+    return vt_send(fd, tmp, off, flags);
+}
+int vt_nanosleep(const struct timespec* req, struct timespec* rem) { (void)req; if (rem) { rem->tv_sec = 0; rem->tv_nsec = 0; } vt_sleep(1); return 0; }
+int vt_usleep(unsigned us) { (void)us; vt_sleep(1); return 0; }
+int vt_clock_nanosleep(clockid_t c, int flags, const struct timespec* req, struct timespec* rem) { (void)c; (void)flags; return vt_nanosleep(req, rem); }
+int vt_getsockopt(int fd, int level, int name, void* v, socklen_t* l) { (void)fd; (void)level; (void)name; if (v && l && *l >= sizeof(int)) { *(int*)v = 0; *l = sizeof(int); } return 0; }
+int vt_fcntl(int fd, int cmd, ...) { (void)fd; (void)cmd; return 0; }
+int vt_connect(int fd, const struct sockaddr* a, socklen_t l) { (void)fd; (void)a; (void)l; return 0; }
 
 /* ---------------- batch driver ---------------- */
 static int hexv(int c) { return c <= '9' ? c - '0' : (c | 32) - 'a' + 10; }
